@@ -160,6 +160,14 @@ fn run(cfg: &RunCfg) -> Report {
             })
         })
     });
+    // configuration boundaries: every type count x vendor-set count, one request per command
+    if !small || cfg.shard == 0 {
+        let mut srng = cfg.rng("c10-cfgsweep");
+        crate::mon::cfgsweep::for_each(&mut srng, !small, &mut |ctx, c, x| {
+            check(ctx, c, x, 64 + (x.len() % 3) * 90, &mut rep);
+        });
+        rep.class("configuration-boundary-sweep");
+    }
     // storms: 600 consecutive inputs of ONE kind on a fresh context (a counter of consecutive
     // failures / requests / responses that lives in a byte wraps after 256 of them)
     if !small || cfg.shard == 0 {
